@@ -375,6 +375,11 @@ func (m *ConnectMessage) Decode(src []byte) (int, error) {
 	if n, err = m.decodeMessage(src[total:]); err != nil {
 		return total + n, err
 	}
+
+	// The payload fields must fill the remaining length exactly.
+	if n < int(m.remlen) {
+		return total + n, fmt.Errorf("connect/Decode: %d bytes behind the last payload field", int(m.remlen)-n)
+	}
 	total += n
 
 	m.dirty = false
